@@ -32,30 +32,45 @@ from .rng import chance, pick
 # --------------------------------------------------------------------------- #
 
 
-def rand_date(rng: random.Random, lo=2008, hi=2020) -> str:
+ERAS = {
+    # years of the entry dates of a tree; "ancient": before and around the year 1000 (a
+    # date text shorter than ten characters orders differently), "far": a century ahead
+    # and the last four-digit years
+    "ancient": [(1, 9), (10, 99), (100, 999), (990, 1010), (1000, 1100)],
+    "far": [(2090, 2110), (2400, 2401), (8990, 8998)],
+}
+
+
+def rand_date(rng: random.Random, lo=2008, hi=2020, era=None) -> str:
+    if era in ERAS:
+        lo, hi = pick(rng, ERAS[era])
     y = rng.randint(lo, hi)
     m = rng.randint(1, 12)
     d = pick(rng, [1, 1, 1, 15, 28, 10])
     return f"{y:04d}-{m:02d}-{d:02d}"
 
 
-def gen_leaf(rng, *, always=False, allow_null=True, lo=0.0, hi=10.0, boolean=False):
+def gen_leaf(rng, *, always=False, allow_null=True, lo=0.0, hi=10.0, boolean=False, era=None, p_inf=0.0):
     """[[date, value|None|'expected'], ...] (unordered on purpose)."""
     n = rng.randint(1, 5)
     dates = set()
+    first = "0001-01-01" if era == "ancient" else "1900-01-01"
     if always:
-        dates.add("1900-01-01")
+        dates.add(first)
     while len(dates) < n:
-        dates.add(rand_date(rng))
+        dates.add(rand_date(rng, era=era))
     out = []
     for d in sorted(dates):
         r = rng.random()
-        if allow_null and r < 0.15 and d != "1900-01-01":
+        if allow_null and r < 0.15 and d != first:
             v = None
-        elif r < 0.22 and d != "1900-01-01" and not always:
+        elif r < 0.22 and d != first and not always:
             v = "expected"
         elif boolean:
             v = rng.random() < 0.5
+        elif p_inf and rng.random() < p_inf:
+            # unbounded ceilings and floors are written .inf / -.inf in parameter files
+            v = pick(rng, [float("inf"), float("-inf")])
         else:
             v = round(rng.uniform(lo, hi), 2)
         out.append([d, v])
@@ -63,35 +78,36 @@ def gen_leaf(rng, *, always=False, allow_null=True, lo=0.0, hi=10.0, boolean=Fal
     return {"kind": "leaf", "values": out}
 
 
-def gen_tree(rng: random.Random) -> dict:
+def gen_tree(rng: random.Random, era=None, p_inf=0.0) -> dict:
+    L = dict(era=era, p_inf=p_inf)
     tree = {
-        "p0": gen_leaf(rng),
-        "g": {"kind": "node", "children": {"p1": gen_leaf(rng), "h": {"kind": "node", "children": {"p2": gen_leaf(rng)}}}},
+        "p0": gen_leaf(rng, **L),
+        "g": {"kind": "node", "children": {"p1": gen_leaf(rng, **L), "h": {"kind": "node", "children": {"p2": gen_leaf(rng, **L)}}}},
     }
     brackets = []
     for i in range(rng.randint(1, 3)):
         brackets.append(
             {
-                "threshold": gen_leaf(rng, lo=100.0 * i, hi=100.0 * i + 50, allow_null=chance(rng, 0.5))["values"],
-                "rate": gen_leaf(rng, lo=0.0, hi=1.0)["values"],
+                "threshold": gen_leaf(rng, lo=100.0 * i, hi=100.0 * i + 50, allow_null=chance(rng, 0.5), era=era)["values"],
+                "rate": gen_leaf(rng, lo=0.0, hi=1.0, era=era)["values"],
             }
         )
     tree["sc"] = {"kind": "scale", "brackets": brackets}
     tree["zones"] = {
         "kind": "node",
-        "children": {f"z{i}": gen_leaf(rng, always=True, allow_null=False) for i in range(rng.randint(2, 4))},
+        "children": {f"z{i}": gen_leaf(rng, always=True, allow_null=False, **L) for i in range(rng.randint(2, 4))},
     }
     tree["nz"] = {
         "kind": "node",
         "children": {
-            z: {"kind": "node", "children": {k: gen_leaf(rng, always=True, allow_null=False) for k in ("x", "y")}}
+            z: {"kind": "node", "children": {k: gen_leaf(rng, always=True, allow_null=False, **L) for k in ("x", "y")}}
             for z in ("za", "zb", "zc")[: rng.randint(2, 3)]
         },
     }
     # a group of flags (bool values); only the first is defined at every date
     tree["flags"] = {
         "kind": "node",
-        "children": {"f0": gen_leaf(rng, always=True, allow_null=False, boolean=True), "f1": gen_leaf(rng, boolean=True), "f2": gen_leaf(rng, boolean=True)},
+        "children": {"f0": gen_leaf(rng, always=True, allow_null=False, boolean=True, era=era), "f1": gen_leaf(rng, boolean=True, era=era), "f2": gen_leaf(rng, boolean=True, era=era)},
     }
     cuts = sorted({rand_date(rng, 2009, 2019) for _ in range(rng.randint(1, 3))})
     asof = {"before_" + cuts[0].replace("-", "_"): gen_leaf(rng, always=True, allow_null=False)}
@@ -237,7 +253,10 @@ class LeafModel:
 
 
 def shift(d: str, days: int) -> str:
-    return (datetime.date.fromisoformat(d) + datetime.timedelta(days=days)).isoformat()
+    try:
+        return (datetime.date.fromisoformat(d) + datetime.timedelta(days=days)).isoformat()
+    except OverflowError:  # before 0001-01-01 / after 9999-12-31: stay put
+        return d
 
 
 def period_bounds(text: str):
